@@ -26,7 +26,30 @@ META = {
 HDR = "From Dawn Require Import Label.Model Label.Run.\nOpen Scope N_scope.\n"
 
 
+# Direct oracles (evaluated by the harnesses on the implementation) that apply to the OUTPUT of each case kind.  Every
+# case goes through them, so a case on which model and implementation disagree has been through them too: when the
+# correspondence breaks, the failures of these oracles on the disagreeing inputs are the concrete failing inputs.
+ORACLES_FOR_KIND = {
+    "parse": ["parse_panics", "parse_print_roundtrip", "print_not_canonical"],
+    "rel": ["relative_roundtrip", "print_not_canonical_rel"],
+    "clean": ["clean_not_idempotent"],
+    "rsp": ["repoSourcePath_panics", "path_escapes_root"],
+    "slabel": ["source_label_roundtrip", "source_label_print_not_canonical", "record_path_collision"],
+    "tip": ["record_path_collision"],
+    "site": ["generated_path_escapes_root", "source_path_escapes_root", "escaping_path_accepted_generates",
+             "escaping_path_accepted_sources", "source_dependency_label_unstable", "entry_crashes_generates",
+             "entry_crashes_sources"],
+}
+# number of leading hex fields of a case line / an ORACLE line that are the case's inputs
+NINPUTS = {"parse": 1, "rel": 2, "clean": 1, "split": 1, "new": 4, "join": 2, "rsp": 2, "slabel": 2, "tip": 3, "site": 3}
+
 ORACLE_FIELDS = {
+    "source_label_roundtrip": "package, source path given to sourceLabel, the printed label that does not re-parse to "
+                              "the label it was printed from",
+    "source_label_print_not_canonical": "package, source path given to sourceLabel, the printed label that an earlier, "
+                                        "different label also printed",
+    "source_dependency_label_unstable": "project root directory, package, sources= entry, the printed label (target-table "
+                                        "key / dependency string) that does not re-parse and print back to itself",
     "entry_crashes_generates": "project root directory, package, generates= entry on which target()/Load panicked, "
                                "panic message",
     "entry_crashes_sources": "project root directory, package, sources= entry on which target()/Load panicked, "
@@ -108,6 +131,31 @@ def show(f):
         return [f[0]] + [x if x in ("ok", "err", "panic") else unhx(x).decode("latin-1") for x in f[1:]]
     return [f[0]] + [unhx(x).decode("latin-1") if x not in ("ok", "err", "panic") and not x.isdigit() or x == "-" else x
                      for x in f[1:]]
+
+
+def eval_model(ctx, cases):
+    """Evaluate the model inside Coq on every case (sharded); returns (indices of disagreeing cases, ok, logs)."""
+    SITE_ROOTS.clear()
+    nroot = {}
+    for f in cases:
+        if f[0] == "site":
+            nroot[unhx(f[1])] = nroot.get(unhx(f[1]), 0) + 1
+    hdr = HDR
+    for b, n in sorted(nroot.items()):
+        if n > 20:
+            SITE_ROOTS[b] = "sroot%d" % len(SITE_ROOTS)
+            hdr += "Definition %s : str := %s.\n" % (SITE_ROOTS[b], cq_bytes(b))
+    shard = 2500
+    exprs = []
+    for i in range(0, len(cases), shard):
+        items = ["(%s, %s)" % (cq_N(i + j), to_case(f)) for j, f in enumerate(cases[i:i + shard])]
+        exprs.append("mismatches [\n" + ";\n".join(items) + "]")
+    okc, res, logs = ctx.coq_eval(hdr, exprs)
+    mism = []
+    if okc:
+        for r in res:
+            mism += r
+    return mism, okc, logs
 
 
 def run(ctx):
@@ -203,43 +251,37 @@ def run(ctx):
     ctx.coverage["correspondence"]["distribution"] = dist
     ctx.add_samples([show(f) for f in cases[1000:1003] + cases[-2:]])
 
-    oracles.sort(key=lambda f: sum(len(x) for x in f[2:]))   # simplest failing input first (stable)
+    # model evaluation first: the oracle failures on inputs where model and implementation DISAGREE are reported first
+    mism, okc, logs = eval_model(ctx, cases)
+    dis_inputs = {}
+    if okc:
+        for i in mism:
+            f = cases[i]
+            dis_inputs.setdefault(tuple(f[1:1 + NINPUTS.get(f[0], 1)]), f[0])
+
+    def on_disagreeing(f):
+        ns = {NINPUTS[k] for k, names in ORACLES_FOR_KIND.items() if f[1] in names} or {1, 2, 3, 4}
+        return any(tuple(f[2:2 + n]) in dis_inputs for n in ns)
+    # disagreeing inputs first, then the simplest failing input (stable)
+    oracles.sort(key=lambda f: (0 if on_disagreeing(f) else 1, sum(len(x) for x in f[2:])))
     for f in oracles:
         ctx.violation("implementation violates C12 oracle %s" % f[1],
                       {"oracle": f[1], "inputs": [unhx(x).decode("latin-1") for x in f[2:]], "inputs_hex": f[2:],
                        "inputs_meaning": ORACLE_FIELDS.get(f[1], "the harness inputs in order"),
+                       "model_and_implementation_disagree_on_this_input": on_disagreeing(f),
                        "how": "label.Parse / sourceFile.go / target(sources=, generates=) on the given input; see "
                               "harness/overlay/*/zz_verif_c12*_test.go"})
     for f in panics:
         ctx.violation("implementation panics", {"case": show(f), "hex": f})
 
-    # model evaluation inside Coq, sharded
-    SITE_ROOTS.clear()
-    nroot = {}
-    for f in cases:
-        if f[0] == "site":
-            nroot[unhx(f[1])] = nroot.get(unhx(f[1]), 0) + 1
-    hdr = HDR
-    for b, n in sorted(nroot.items()):
-        if n > 20:
-            SITE_ROOTS[b] = "sroot%d" % len(SITE_ROOTS)
-            hdr += "Definition %s : str := %s.\n" % (SITE_ROOTS[b], cq_bytes(b))
-    shard = 2500
-    exprs = []
-    for i in range(0, len(cases), shard):
-        items = ["(%s, %s)" % (cq_N(i + j), to_case(f)) for j, f in enumerate(cases[i:i + shard])]
-        exprs.append("mismatches [\n" + ";\n".join(items) + "]")
-    okc, res, logs = ctx.coq_eval(hdr, exprs)
-    mism = []
     if not okc:
         ctx.log("coq evaluation failed", logs[:1])
         ctx.violation("model evaluation failed", {"theorem_or_correspondence": "C12 cases.v evaluation", "log": logs[:2]},
                       found_input=False)
         return
-    for r in res:
-        mism += r
     ctx.coverage["correspondence"]["cases"] = len(cases)
     ctx.coverage["correspondence"]["mismatches"] = len(mism)
+    ctx.coverage["correspondence"]["oracle_failures_on_disagreeing_inputs"] = sum(1 for f in oracles if on_disagreeing(f))
     ctx.log("cases=%d mismatches=%d oracle_failures=%d" % (len(cases), len(mism), len(oracles)))
     if mism and not oracles and not panics:
         # the model (for which the theorems are proved) and the code disagree, but no direct failure of the
@@ -247,7 +289,10 @@ def run(ctx):
         ex = [show(cases[i]) for i in mism[:5]]
         ctx.violation("model/implementation disagree on %d cases, e.g. %s" % (len(mism), ex[0]),
                       {"theorem_or_correspondence": "correspondence Label/Model.v <-> label.go/sourceFile.go/project.go",
-                       "disagreeing_cases": ex, "hex": [cases[i] for i in mism[:5]]}, found_input=False)
+                       "disagreeing_cases": ex, "hex": [cases[i] for i in mism[:5]],
+                       "direct_oracles_that_passed_on_them": {k: ORACLES_FOR_KIND.get(k, [])
+                                                              for k in sorted({cases[i][0] for i in mism})}},
+                      found_input=False)
     if proof_broken and not ctx.violations:
         ctx.violation("a C12 theorem no longer checks", {"theorem_or_correspondence": getattr(ctx, "broken_proof", {})},
                       found_input=False)
